@@ -628,7 +628,10 @@ impl Printf {
         })
     }
 
-    fn print(&self, file_info: &WalkEntry, mut out: impl Write) -> std::io::Result<()> {
+    /// Writes one record. `Ok(false)`: written, but some directive could not
+    /// be evaluated (it was diagnosed and rendered as nothing).
+    fn print(&self, file_info: &WalkEntry, mut out: impl Write) -> std::io::Result<bool> {
+        let mut complete = true;
         for component in &self.format.components {
             match component {
                 FormatComponent::Literal(literal) => write!(out, "{literal}")?,
@@ -660,12 +663,13 @@ impl Printf {
                             e
                         )
                         .ok();
-                        break;
+                        // The rest of the format is still copied.
+                        complete = false;
                     }
                 },
             }
         }
-        Ok(())
+        Ok(complete)
     }
 }
 
@@ -676,6 +680,9 @@ impl Matcher for Printf {
         } else {
             self.print(file_info, &mut *matcher_io.deps.get_output().borrow_mut())
         };
+        if let Ok(false) = written {
+            matcher_io.set_exit_code(1);
+        }
         if let Err(e) = written {
             // A closed pipe is the reader's way of saying "enough".
             if self.output_file.is_some() || e.kind() != std::io::ErrorKind::BrokenPipe {
